@@ -41,6 +41,10 @@ Proof. exact match_sat. Qed.
 Theorem C11_no_error : forall C objcls M T l dom, F11lax C objcls T l = true -> run_raises C M T l dom = false.
 Proof. exact no_error. Qed.
 
+(* whatever the pattern: in a world without None (the object 0) no attribute access fails *)
+Theorem C11_no_attr_error : forall C M T l dom, no_none M dom -> run_araises C M T l dom = false.
+Proof. exact no_attr_error. Qed.
+
 (* the left-nested AND chain with its false results computes the sequential evaluation used in the proofs *)
 Theorem C11_and_chain : forall C M D cs, true_envs C M D cs = eval_all C M D cs [].
 Proof. exact true_envs_seq. Qed.
@@ -48,6 +52,7 @@ Proof. exact true_envs_seq. Qed.
 (* the flag the harness computes on a concrete case implies every hypothesis of C11_match: each case counted as
    "inside F11" is an instance of the theorem *)
 Theorem C11_fragment_flag : forall c : mcase, in_F c = true ->
+  run_araises (case_cmodel c) (case_world c) (c_T c) (c_pat c) (c_dom c) = false /\
   run_raises (case_cmodel c) (case_world c) (c_T c) (c_pat c) (c_dom c) = false /\
   forall o, In o (run (case_cmodel c) (case_world c) (c_T c) (c_pat c) (c_dom c)) <->
             In o (spec_run (sub (case_cmodel c)) (case_world c) (c_T c) (c_pat c) (c_dom c)).
@@ -75,6 +80,7 @@ Theorem C11_vacuous_keyword : forall C objcls M oc p a t o d xs,
   matches_attr (sub C) M (PMatch (Pat t ANil)) (VLO xs) = negb (match xs with [] => true | _ => false end).
 Proof. exact vacuous_keyword. Qed.
 Theorem C11_fragment_flag_lax : forall c : mcase, in_Flax c = true ->
+  run_araises (case_cmodel c) (case_world c) (c_T c) (c_pat c) (c_dom c) = false /\
   run_raises (case_cmodel c) (case_world c) (c_T c) (c_pat c) (c_dom c) = false /\
   forall o, In o (run (case_cmodel c) (case_world c) (c_T c) (c_pat c) (c_dom c)) <->
             In o (lax_run (case_cmodel c) (case_world c) (c_T c) (c_pat c) (c_dom c)).
@@ -126,6 +132,7 @@ Print Assumptions C11_match.
 Print Assumptions C11_rows.
 Print Assumptions C11_match_sat.
 Print Assumptions C11_no_error.
+Print Assumptions C11_no_attr_error.
 Print Assumptions C11_and_chain.
 Print Assumptions C11_fragment_flag.
 Print Assumptions C11_fragment_flag_rows.
